@@ -167,7 +167,11 @@ func (tb *ATable) RegisterPropertyCallback(
 		*cbListPtr = make([]PropertyCallback, 0, 10)
 	}
 
-	*cbListPtr = append(*cbListPtr, theNewCallback)
+	// Owners (cells in particular) are copied around by value, so two copies may
+	// hold the same backing array with spare capacity; never append in place, or
+	// a registration on one copy would overwrite one made on another.
+	old := *cbListPtr
+	*cbListPtr = append(old[:len(old):len(old)], theNewCallback)
 	return nil
 }
 
